@@ -78,6 +78,12 @@ func Scenarios() []*Scn {
 		// a late put racing the heartbeat (as S23), followed by more events of the same stream: an event that vanished must
 		// not be committed past
 		{Name: "S34-join-hold-late-put-then-more", Pool: std, Capacity: 4, Sources: [][]Ev{{S, Ev{JSON: `{"m":"x2"}`, Delay: 400 * time.Millisecond}, ev(`{"m":"x3"}`), ev(`{"m":"x4"}`)}}, Actions: []string{"join"}, Props: "C01 C02 C15"},
+		// capacities that are not powers of two, with a batch that keeps more events in flight than the pool may hand out
+		{Name: "S36-std-cap3-batch4", Pool: std, Capacity: 3, Sources: [][]Ev{plain(3, ""), plain(2, "")}, BatchCount: 4, Props: "C05 C04"},
+		{Name: "S37-lowmem-cap3-batch4", Pool: low, Capacity: 3, Sources: [][]Ev{plain(3, ""), plain(2, "")}, BatchCount: 4, Props: "C05"},
+		// an action behind the join that does not pass the flushed run on (discard): the lines after the run keep their order
+		{Name: "S38-join-then-discard-run", Pool: std, Capacity: 4, Sources: [][]Ev{{ev(`{"m":"S1","d":"1"}`), ev(`{"m":"C2"}`), ev(`{"m":"x3"}`), ev(`{"m":"x4"}`)}}, Actions: []string{"join", "discard"}, Props: "C15 C02 C01"},
+		{Name: "S39-join-then-discard-2runs", Pool: low, Capacity: 4, Sources: [][]Ev{{ev(`{"m":"S1","d":"1"}`), ev(`{"m":"S2"}`), ev(`{"m":"C3"}`), ev(`{"m":"x4","d":"1"}`), ev(`{"m":"x5"}`)}}, Actions: []string{"join", "discard"}, Props: "C15 C02"},
 		{Name: "S18-cap1-join-hold", Pool: low, Capacity: 1, Sources: [][]Ev{{S, Oth}}, Actions: []string{"join"}, Props: "C04 C05"},
 		{Name: "S19-1proc-2streams", Pool: std, Capacity: 2, SingleProc: true, Sources: [][]Ev{{x, y, x2}}, Props: "C02 C04"},
 		{Name: "S20-exits-of-In", Pool: std, Capacity: 2, MaxEventSize: 40, Sources: [][]Ev{{
@@ -135,7 +141,7 @@ func Grid() []*Scn {
 		}},
 	}
 	for _, pool := range []pipeline.PoolType{pipeline.PoolTypeStd, pipeline.PoolTypeLowMem} {
-		for _, capacity := range []int{1, 2} {
+		for _, capacity := range []int{1, 2, 3} {
 			for _, single := range []bool{false, true} {
 				for _, chain := range []string{"", "join", "discard,join", "split,join", "collapse"} {
 					for _, sh := range shapes {
